@@ -18,6 +18,32 @@ TYPES = [
     "`pre-${string}`", "`${number}px`", "Uppercase<'a'>", "Partial<A0>", "Pick<A0, 'a'>", "ReturnType<typeof f0>", "NonNullable<A0['a']>", "A0 | undefined | null", "((x: number) => void) | null", "Array<(x: number) => void>",
     "{ a: { b: { c: number[] }[] } }", "(typeof v0)[]", "readonly [x: number, y?: number]", "() => () => () => void", "<U>(x: U) => U", "<U extends A0 = A0>(x: U) => U['a']", "import('./x').T",
 ]
+# operator structure: every union/intersection shape over 2 and 3 operands (precedence, grouping, leading bars),
+# and the unary / postfix / arrow contexts a binary type can sit in
+_ATOMS = ["number", "A0", "'a'", "{ a: number }", "string[]"]
+
+
+def _binary_types():
+    out = []
+    a, b, c = _ATOMS[0], _ATOMS[1], _ATOMS[2]
+    for x, y in (("|", "|"), ("|", "&"), ("&", "|"), ("&", "&")):
+        out.append("%s %s %s %s %s" % (a, x, b, y, c))
+        out.append("(%s %s %s) %s %s" % (a, x, b, y, c))
+        out.append("%s %s (%s %s %s)" % (a, x, b, y, c))
+    for i, p in enumerate(_ATOMS):
+        q = _ATOMS[(i + 1) % len(_ATOMS)]
+        r = _ATOMS[(i + 2) % len(_ATOMS)]
+        out += ["%s | %s & %s" % (p, q, r), "%s & %s | %s & %s" % (p, q, r, p), "| %s & %s | %s" % (p, q, r), "& %s & %s" % (p, q)]
+    out += ["keyof A0 & string", "keyof (A0 | B0)", "(A0 | B0)['a' & string]", "() => number | string & A0", "(x: number | string & A0) => void", "Array<number | string & A0>", "[number | string & A0, A0 & B0 | null]",
+            "{ a: number | string & A0 }", "A0 | B0 & { c: true } | null", "A0 extends B0 | A0 & B0 ? A0 & B0 : A0 | B0", "(number | string)[] | A0 & B0", "readonly (A0 & B0)[] | undefined", "typeof v0 | A0 & B0", "`${'a' | 'b' & string}`"]
+    seen = []
+    for t in out:
+        if t not in seen:
+            seen.append(t)
+    return seen
+
+
+TYPES = TYPES + [t for t in _binary_types() if t not in TYPES]
 RET_ONLY = ["x is string", "asserts x is string", "asserts x", "this", "Promise<[number, string]>"]
 TPARAMS = ["<T>", "<T, U>", "<T extends A0>", "<T extends keyof A0 = 'a'>", "<const T>", "<T = {}>", "<in out T>", "<T extends (...a: any[]) => any>", "<T extends readonly unknown[]>", "<T,>"]
 TARGS = ["<number>", "<A0>", "<string, number>", "<Array<number>>", "<Map<string, Array<number>>>", "<{ a: number }>", "<typeof v0>", "<'a' | 'b'>", "<[number, string]>", "<(x: number) => void>"]
